@@ -90,7 +90,21 @@ func runBlockStore(a hc.Args, rc *rec.Recorder, scratch string, firstID int) {
 			}
 			w.Do(ts)
 		}
-		blocks = append(blocks, w.EndBlock())
+		b := w.EndBlock()
+		// populate every header field the way a notarized block carries them (the world leaves them empty)
+		b.Signature = w.Miners[0].Sign(b.Hash)
+		b.LatestFinalizedMagicBlockHash = w.Genesis.MagicBlock.Hash
+		b.LatestFinalizedMagicBlockRound = w.Genesis.Round
+		b.RoundTimeoutCount = n % 3
+		b.RunningTxnCount = int64(10*n + len(b.Txns))
+		b.StateChangesCount = 1 + len(b.Txns)
+		for _, m := range w.Miners {
+			b.VerificationTickets = append(b.VerificationTickets, &block.VerificationTicket{VerifierID: m.ID, Signature: m.Sign(b.Hash)})
+		}
+		if prev := blocks[len(blocks)-1]; len(prev.VerificationTickets) > 0 {
+			b.PrevBlockVerificationTickets = prev.VerificationTickets
+		}
+		blocks = append(blocks, b)
 	}
 
 	for v, cache := range []bool{false, true} {
@@ -155,7 +169,7 @@ func runBlockStore(a hc.Args, rc *rec.Recorder, scratch string, firstID int) {
 			}()
 			select {
 			case <-done:
-			case <-time.After(2 * time.Second):
+			case <-time.After(20 * time.Second): // generous: C26 names hangs for the database lookups only
 				rc.Emit(rec.M{"ev": "SRead", "b": i, "by": by, "res": "hang", "hash_same": false, "rehash_same": false,
 					"d_all": 0, "d_hdr": 0, "d_txn": 0, "d_out": 0, "d_mb": 0}, by+"/hang", false)
 				return
